@@ -220,7 +220,15 @@ func inputMessages(ctxID, reqID []byte) []inputCase {
 
 var inputTxHash = append([]byte{0x77}, make([]byte, 31)...)
 
-func inputGrid(tier string) (*PureEvidence, []Found) {
+func inputGrid(tier string) (*PureEvidence, []Found) { return inputGridWith(nil) }
+
+// inputGridInv evaluates the state invariants of one property on every state reached by a boundary-shaped message
+// (and on the state after the following end of block).
+func inputGridInv(o Oracle) func(tier string) (*PureEvidence, []Found) {
+	return func(tier string) (*PureEvidence, []Found) { return inputGridWith(o) }
+}
+
+func inputGridWith(inv Oracle) (*PureEvidence, []Found) {
 	rig := NewRig(RigConfig{})
 	sc := withFunds(scLife(defaultParams(), []Template{tRep2}, AlphaOpts{}, 1, 1, 1), 40, 5)
 	// three representative states: nothing defined; bound; running context with pending requests and earnings
@@ -292,11 +300,26 @@ func inputGrid(tier string) (*PureEvidence, []Found) {
 							fmt.Sprintf("state %s, message %s: panic %s at %s", stt.n, msgJSON(ic.Msg), res.Panic, res.PanicTrc)), Trace: []string{stt.n, msgJSON(ic.Msg)}, Count: 1})
 						continue
 					}
+					checkInv := func(where string) {
+						if inv == nil || !res.OK() {
+							return
+						}
+						ps := &State{Height: stt.s.Height, Time: stt.s.Time, Stores: w.Flush()}
+						x := &OCtx{Sc: sc, Rig: rig, wit: map[string]int64{}, outc: map[string]int64{}}
+						lc["invariant-evaluations/"+ic.Name]++
+						for _, v := range inv.Invariant(x, rig.Decode(ps), NewMon()) {
+							v.Sig = invSig(v.Sig, where+ic.Name)
+							lf = append(lf, Found{Violation: v, Trace: []string{stt.n, msgJSON(ic.Msg), where}, Count: 1})
+						}
+					}
+					checkInv("after-")
 					eb := w.EndBlock()
 					lc["end-of-block-after/"+ic.Name]++
 					if eb.Panic != "" {
 						lf = append(lf, Found{Violation: viol("C20", "end-of-block-never-panics", "E-after-"+ic.Name, panicClass(eb.Panic, eb.PanicTrc),
 							fmt.Sprintf("state %s, after message %s: end of block panics: %s at %s", stt.n, msgJSON(ic.Msg), eb.Panic, eb.PanicTrc)), Trace: []string{stt.n, msgJSON(ic.Msg), "E"}, Count: 1})
+					} else {
+						checkInv("E-after-")
 					}
 				}
 			}
